@@ -290,7 +290,8 @@ def r2(cx):
             if c.kind == "call" and c.term is emp[0]:
                 from vlib.cond import bool_edges
                 te, fe = bool_edges(b.term, c)
-                okret = [s.bb for s in tf.stmts() if s.kind == "assign" and s.lhs.l == 0 and s.rv == "agg" and isinstance(s.agg, dict) and s.agg.get("variant") == "Ok"]
+                from .client_common import ok_return_blocks
+                okret = ok_return_blocks(tf)
                 idl = [s.bb for s in tf.stmts() if s.kind == "assign" and s.rv == "agg" and isinstance(s.agg, dict) and s.agg.get("variant") == "Idl"]
                 okt = bool(okret) and bool(idl) and all(x in tcfg.after(te) and x not in tcfg.after(fe) for x in okret) and all(x in tcfg.after(fe) and x not in tcfg.after(te) for x in idl)
     cx.check(okt, "C11.R2", "try_from:Err-iff-errors", tf.sp, "try_from does not return Ok exactly when the error set is empty and Error::Idl otherwise", note_ok="error.is_empty() ? Ok(interface) : Err(Idl(sorted, joined))")
